@@ -136,8 +136,23 @@ class World:
         # V1
         v1 = {f'p{i}': gen_dt.complete(s['spec'], gen_dt.gen_valid(s['spec'], rng, True), rng) for i, s in enumerate(specs)}
         for i, s in enumerate(specs):
-            setattr(m, f'p{i}', gen_dt.to_py(s['spec'], v1[f'p{i}']))
-        m.saveParameters()
+            if rng.random() < 0.8:
+                # a string with a lone surrogate code point: where the datatype accepts it, it is stored and restored like any other
+                ws, ok = gen_dt.with_lone_surrogate(s['spec'], v1[f'p{i}'], rng)
+                if ok:
+                    try:
+                        self.B.build(s['spec'])(gen_dt.to_py(s['spec'], ws))
+                        v1[f'p{i}'] = ws
+                        r.count('stored_values_with_lone_surrogate')
+                    except Exception:
+                        pass
+        try:
+            for i, s in enumerate(specs):
+                setattr(m, f'p{i}', gen_dt.to_py(s['spec'], v1[f'p{i}']))
+            m.saveParameters()
+        except Exception as e:
+            r.violation(f'C17/save-raises/{type(e).__name__}', f'assigning valid values and saving raises {type(e).__name__}: {e}'[:200], dict(case_base, values=v1))
+            return
         snap1 = self.snapshot(m)
         r.count('oracle_roundtrip')
         if self.disk(d0) != snap1:
